@@ -66,10 +66,21 @@ impl<'a> PartialEqSpecImpl<&'a Str> for Str {
 /// lexicographic order on strings (`Ord for String`): uninterpreted total order
 pub uninterp spec fn str_cmp(a: Seq<char>, b: Seq<char>) -> core::cmp::Ordering;
 pub uninterp spec fn str_lower(s: Seq<char>) -> Seq<char>;
+pub uninterp spec fn str_ends_with(s: Seq<char>, o: Seq<char>) -> bool;
+pub uninterp spec fn str_starts_with(s: Seq<char>, o: Seq<char>) -> bool;
 pub uninterp spec fn str_upper(s: Seq<char>) -> Seq<char>;
 impl Str {
     #[verifier::external_body]
     pub fn cmp(&self, o: &Str) -> (r: core::cmp::Ordering) ensures r == str_cmp(self@, o@) { unimplemented!() }
+    /// `str::ends_with` / `starts_with` on whole strings: uninterpreted relations of the two texts (reflexive)
+    #[verifier::external_body]
+    #[verifier::when_used_as_spec(spec_ends_with)]
+    pub fn ends_with(&self, o: &Str) -> (r: bool) ensures r == self.spec_ends_with(o) { unimplemented!() }
+    pub open spec fn spec_ends_with(&self, o: &Str) -> bool { str_ends_with(self@, o@) }
+    #[verifier::external_body]
+    #[verifier::when_used_as_spec(spec_starts_with)]
+    pub fn starts_with(&self, o: &Str) -> (r: bool) ensures r == self.spec_starts_with(o) { unimplemented!() }
+    pub open spec fn spec_starts_with(&self, o: &Str) -> bool { str_starts_with(self@, o@) }
     /// `str::to_lowercase` / `to_uppercase`: uninterpreted functions of the text
     #[verifier::external_body]
     pub fn to_lowercase(&self) -> (r: Str) ensures r@ == str_lower(self@) { unimplemented!() }
@@ -203,6 +214,10 @@ impl<E> UnwrapOrDefaultExt<Uint128> for Result<Uint128, E> {
 impl UnwrapOrDefaultExt<Uint128> for Option<Uint128> {
     #[verifier::external_body]
     fn unwrap_or_default_(self) -> (r: Uint128) ensures match self { Some(v) => r == v, None => r@ == 0 } { unimplemented!() }
+}
+impl UnwrapOrDefaultExt<usize> for Option<usize> {
+    #[verifier::external_body]
+    fn unwrap_or_default_(self) -> (r: usize) ensures match self { Some(v) => r == v, None => r == 0 } { unimplemented!() }
 }
 impl UnwrapOrDefaultExt<u64> for Option<u64> {
     #[verifier::external_body]
